@@ -78,6 +78,18 @@ func Bytes(n int) []byte {
 	return b
 }
 
+// BytesSymLen returns a byte slice of symbolic length 0..max whose content is irrelevant.
+func BytesSymLen(max int) []byte {
+	n := int(uint32(next()))
+	if n > max {
+		n = max
+	}
+	return make([]byte, n)
+}
+
+// WatchReentryAll is an engine-side monitor (no native effect).
+func WatchReentryAll(recvType, field, id string) {}
+
 // AssumeViolated is set when a native run contradicts an assumption: the tape is
 // then not a valid input of the harness (engine defect if it came from the engine).
 var AssumeViolated bool
